@@ -75,7 +75,9 @@ def u_rules(schema: Schema, rep: Report):
         for n in outs:
             if n.kind == "return":
                 v = n.stmt.value
-                if not (isinstance(v, ast.Name) and v.id == accum and all(d.kind == "param" for d in reach.defs_at(n, accum))):
+                if isinstance(v, ast.Name) and v.id == "__loop_left_early__":
+                    ok, why = False, "the unknown-tag branch leaves the loop over the children (break): every child after the first unknown tag is dropped - the model changes, or a required child goes missing and the document is rejected"
+                elif not (isinstance(v, ast.Name) and v.id == accum and all(d.kind == "param" for d in reach.defs_at(n, accum))):
                     ok, why = False, f"the unknown-tag branch returns {ast.unparse(v) if v else None} instead of the accumulator it received: the ordering state (previous index / previous-is-list-member) or the collected values change"
             elif n.kind == "raise":
                 ok, why = False, "the unknown-tag branch raises: a document with an unknown tag is rejected"
@@ -111,7 +113,7 @@ def u_rules(schema: Schema, rep: Report):
     removes = False
     if gfn is not None:
         for st in own_statements(gfn):
-            if isinstance(st, ast.If) and '"."' in text(st.test) and ".tag" in text(st.test):
+            if isinstance(st, ast.If) and "'.'" in text(st.test).replace('"', "'") and ".tag" in text(st.test):
                 if any(isinstance(c, ast.Call) and isinstance(c.func, ast.Attribute) and c.func.attr == "remove" for c in ast.walk(st)):
                     removes = True
     u1_ok = all(o.ok for o in rep.obligations if o.rule == "U-R1")
@@ -137,8 +139,14 @@ def u_rules(schema: Schema, rep: Report):
 
     ocfg = CFG(outer)
     oreach = Reaching(ocfg)
-    onode = [n for n in ocfg.nodes if any(c is call for c in n.calls())][0]
-    vals = [text(v) for v in resolve_values(call.args[1], onode, oreach)] if len(call.args) >= 2 else []
+    syn_ = getattr(call, "_synthetic", None)
+    if syn_ is not None:
+        # the fold is written as a loop: what it iterates, at the loop
+        onode = [n for n in ocfg.nodes if n.stmt is syn_["loop"]][0]
+        vals = [text(v) for v in resolve_values(syn_["loop"].iter, onode, oreach)]
+    else:
+        onode = [n for n in ocfg.nodes if any(c is call for c in n.calls())][0]
+        vals = [text(v) for v in resolve_values(call.args[1], onode, oreach)] if len(call.args) >= 2 else []
     ok = bool(vals) and all(v == f"{cls}.groom({oelem})" for v in vals)
     rep.check("U-R4", "_convert:grooms-before-folding", ok, f"reduce() iterates {vals}, not {cls}.groom({oelem}) on every path" if not ok else "", f"{rel}:{call.lineno}")
 
